@@ -66,7 +66,7 @@ Theorem program_run_z s p reg s' r c f :
 Proof.
   intros HB A EC EP EX.
   assert (FR : Fresh c []).
-  { destruct A as (_ & _ & top & EV & RR). left. destruct top as [|x t]; [rewrite EV; reflexivity|]. destruct RR as (_ & N & _). exfalso. apply N. reflexivity. }
+  { destruct A as (_ & _ & top & EV & RR). apply fresh_nil. destruct top as [|x t]; [rewrite EV; reflexivity|]. destruct RR as (_ & N & _). exfalso. apply N. reflexivity. }
   destruct (zprog_vm s RNone p reg s' HB r c f [] [] [] [] A FR) as (r1 & c1 & f1 & rest1 & S1 & A1 & MV & P1 & K1).
   { cbn. rewrite app_nil_r. exact EC. } { exact EP. }
   inversion K1; subst. destruct A1 as ((G1 & EF1 & (F1 & N1) & B1 & D1) & LB1 & top & EV1 & RR).
@@ -191,9 +191,9 @@ Proof.
           constructor; [|constructor; [exact FM|exact F']].
           split; [intros k; reflexivity|split; [|reflexivity]]. cbn. destruct FM as (_ & NS & _). unfold cur_ns_of. rewrite <- E1. exact NS.
         + split; [cbn; lia|rewrite quirks_upd_cur; exact D2].
-      - split; [reflexivity|]. exists [VNil]. split; [reflexivity|]. split; [reflexivity|]. split; [discriminate|left; reflexivity]. }
+      - split; [reflexivity|]. exists [VNil]. split; [reflexivity|]. split; [reflexivity|]. split; [discriminate|nil_case]. }
     pose proof (proj1 (proj2 (proj2 (proj2 vm_runs_z))) (enter s2 []) RNil b out s3 HB) as BE.
-    destruct (scope_ends_of_body _ _ _ _ _ BE _ _ nf fdie [] (c_values c) [] A3 (or_intror eq_refl) eq_refl eq_refl eq_refl) as (r4 & c4 & fd4 & rest4 & S4 & M4 & EV4 & K4 & KR4).
+    destruct (scope_ends_of_body _ _ _ _ _ BE _ _ nf fdie [] (c_values c) [] A3 (fresh_one (push_value cX VNil) (c_values c) eq_refl) eq_refl eq_refl eq_refl) as (r4 & c4 & fd4 & rest4 & S4 & M4 & EV4 & K4 & KR4).
     { cbn. rewrite (moved_base _ _ MV2), (moved_base _ _ MV1); exact B. }
     inversion KR4; subst.
     destruct M4 as (G4 & EF4 & (F4 & N4) & B4 & D4).
@@ -222,7 +222,7 @@ Theorem program_run_exit s p out s' r c f :
 Proof.
   intros HB A EC EP EX.
   assert (FR : Fresh c []).
-  { destruct A as (_ & _ & top & EV & RR). left. destruct top as [|x t]; [rewrite EV; reflexivity|]. destruct RR as (_ & N & _). exfalso. apply N. reflexivity. }
+  { destruct A as (_ & _ & top & EV & RR). apply fresh_nil. destruct top as [|x t]; [rewrite EV; reflexivity|]. destruct RR as (_ & N & _). exfalso. apply N. reflexivity. }
   destruct (root_block s RNone p out s' HB r c f [] A FR EC EP EX) as (rf & cf & S1 & C1 & F1 & V1 & N1 & T).
   exists rf, cf. split; [exact S1|]. split; [exact C1|]. split; [exact F1|]. split; [exact V1|]. split; [exact N1|]. split; [exact T|].
   intros fuel n x r' H.
